@@ -1,6 +1,6 @@
 SPECIFICATION Spec
 CONSTANTS
-  Shapes <- ShapesC43
+  Shapes <- ShapesC43t3
   MaxBlocks = 4
   Paths <- WireOnly
   Muts <- OnlyValid
